@@ -39,34 +39,10 @@ impl<'a> Gen<'a> {
         // fault enumeration: the same operation is attempted with the 1st, 2nd, … bank call failing,
         // until an attempt runs without reaching the armed call (that attempt is the real one)
         let mut k = 1u64;
-        // fault positions at which the attempt was rejected, since the state last changed
-        let mut rejected_at: Vec<u64> = vec![];
         loop {
             self.run.step(&format!("fault {}", k), self.o);
-            let before = self.run.h.last_obs.clone();
             let res = self.run.step(&line, self.o);
             let hit = self.run.h.last_calls >= k;
-            let kind = crate::monitors::parse_tx(&line).map(|t| t.kind).unwrap_or("send".into());
-            self.o.line(&format!("mon_fault_outcome {} {} {}", hit as u8, (res == "ok") as u8, kind), "ok");
-            if hit && res != "ok" { rejected_at.push(k); }
-            if hit && res == "ok" { rejected_at.clear(); }
-            if !hit && res == "ok" && (kind == "createfarm" || kind == "closefarm") {
-                // C20: the refunds of the farms this transaction closes are its LAST bank calls; an attempt in which
-                // one of THEM was made to fail must not have been rejected (the failure of such a refund is tolerated)
-                let after = &self.run.h.last_obs;
-                let refunds = before.farms.iter().filter(|f| {
-                    let gone = match after.farms.iter().find(|g| g.identifier == f.identifier) {
-                        None => true,
-                        Some(g) => g.owner != f.owner || g.start_epoch != f.start_epoch || g.claimed_amount < f.claimed_amount,
-                    };
-                    gone && f.farm_asset.amount > f.claimed_amount
-                }).count() as u64;
-                let calls = self.run.h.last_calls;
-                if refunds > 0 {
-                    let blocked = rejected_at.iter().filter(|x| **x + refunds > calls && **x <= calls).count();
-                    self.o.line(&format!("mon_refund_tolerated {} {} {} {}", kind, calls, refunds, blocked), "ok");
-                }
-            }
             if !hit || k >= 14 { return res; }
             k += 1;
         }
